@@ -6,6 +6,10 @@
 #include "../VectorTools.h"
 #include "AbstractDiscreteDistribution.h"
 
+#include <algorithm>
+#include <cmath>
+#include <limits>
+
 using namespace bpp;
 using namespace std;
 
@@ -446,12 +450,15 @@ void AbstractDiscreteDistribution::discretizeEqualProportions()
     {
       int j = 1;
       int f = ((values[i] + NumConstants::TINY()) >= intMinMax_->getUpperBound()) ? -1 : 1;
-      while (distribution_.find(values[i] + f * j * precision()) != distribution_.end())
+      // Separation step: the precision, but not less than a few spacings of the doubles around the
+      // value (a smaller step is absorbed by the addition and the search would never advance).
+      double step = std::max(precision(), 4 * std::numeric_limits<double>::epsilon() * std::abs(values[i]));
+      while (distribution_.find(values[i] + f * j * step) != distribution_.end())
       {
         j++;
-        f = ((values[i] + f * j * precision()) >= intMinMax_->getUpperBound()) ? -1 : 1;
+        f = ((values[i] + f * j * step) >= intMinMax_->getUpperBound()) ? -1 : 1;
       }
-      distribution_[values[i] + f * j * precision()] = p;
+      distribution_[values[i] + f * j * step] = p;
     }
     else
       distribution_[values[i]] = p;
